@@ -452,6 +452,8 @@ def run(ctx):
     ctx.run_rule('C09.2', 'T1', 'cursor discipline in the three lexers', r_cursor_discipline, prog)
     ctx.run_rule('C09.3', 'T4', 'token locations come from the cursor, read before any repositioning', r_token_locations, prog)
     ctx.run_rule('C09.4a', 'T10', 'snippets count characters, not bytes', r_snippet_units, prog)
+    from props import c14 as _c14
+    ctx.run_rule('C09.4d', 'T10', 'the source text shown under a location (of a diagnostic or of a note) is cut from the file that location names', _c14.r_snippet_from_span_file, prog)
     ctx.run_rule('C09.4c', 'T10', 'the underline starts at start.col - 1 on the first line (0 on the others) and ends at end.col - 1 on the last (the line width on the others)', r_highlight_bounds, prog)
     ctx.run_rule('C09.4b', 'T13', 'highlight arithmetic conditions (precondition ledger)', r_snippet_arithmetic, prog)
     ctx.run_rule('C09.5', 'T10', 'doc comment extent', r_doc_comment_span, prog, ctx.cache_dir)
